@@ -11,6 +11,9 @@ declare -A props=(
   [receiveuntil_restructured]="C08 C14 C16"
   [ack_arithmetic]="C08 C20"
   [packetat_checksum_restructured]="C02 C07 C03"
+  [baudrate_cases_reordered]="C20 C15"
+  [client_command_renamed]="C08 C14 C16"
+  [latlon_decoder_renamed]="C04 C12 C03"
 )
 for f in harmless/*.diff; do
   n=$(basename $f .diff)
